@@ -58,7 +58,7 @@ func (check) Cases(tier string) int {
 func (check) Exhaustive(string) bool { return false }
 
 func (check) Rule() string {
-	return "(1) exhaustively all reference graphs over 3 string settings with at most 2 references each (13^3 graphs); (2) random graphs over up to 8 settings (strings a..f, object o with members o.x, o.y) with references nested in defaults, alternatives, error operators and reference names, repeated uses, diamonds, self references, references from object members to ancestors and to the object itself, exact single references to the object; with 0 or 1 resolver. Every setting is read through String, Unpack (interface{} and string), Has, CountField, Child (object-valued), and the whole config through Unpack, FlattenedKeys and diff.CompareConfigs. A hook counts reference resolutions per read (budget 2*10^4, the read is aborted by the monitor beyond it); stack overflows kill the worker and are attributed to the journalled case. Outcomes are compared with the stack-based model evaluator by class: no re-entry -> exact value/failure; unabsorbed re-entry -> cyclic reference error; absorbed re-entry (by a default, an alternative or a resolver) -> the model's value. Non-trivial = the graph has at least one edge; distinct = distinct graph. (3) with every random graph a second, independently drawn configuration of nested objects, maps and lists (depth <= 3) whose object-valued positions are literal objects or exact single references - to each other, to enclosing objects, to themselves, to top-level settings that are references again (chains of 1..4+ references ending in an object), rarely to text or to nothing - and whose text members are splices/operators over other texts and over the object-valued positions (tests like ${obj:+yes} that differ inside and outside the evaluation of obj); 40% of them acyclic by construction, 1/3 with a resolver. It is unpacked into TYPED targets: two recursive struct types (members *T, map[string]*T, map[string]T, []*T, []T, *Config, string, interface{}; opposite declaration orders) - every top-level setting on its own, the whole config, literal objects through Child - each time into a fresh target, once more into the target just filled, and into a target pre-filled with empty objects (merge paths); *Config members are unpacked in a second call. Oracle: an evaluator that follows reference chains at object positions with an explicit stack (all references on the way stay under evaluation while the object they lead to is unpacked) and evaluates texts with the shared string model under that stack: some position fails -> the read fails (as cyclic reference error if every failing position is an unabsorbed re-entry); nothing fails -> the target holds exactly the model's values. Same step budget. (4) with every random graph a third configuration (path world): literal objects/lists, aliases = exact single references to objects, lists, primitives, texts, other aliases (one third of the worlds: one chain of up to 5 aliases), themselves, nothing, also written as paths THROUGH aliases (${x.sub}), texts whose references are such paths (${x.k}, ${o.back.back.k}, ${l.1}); read through String, Has, Child (+ generic Unpack and CountField of the result), Unpack into a member tagged with a multi-segment path, into []interface{}, []string, [N]string, []int, [N]uint8 members (a primitive reads as a list of one) and one struct of slices per call, whole-config Unpack, FlattenedKeys, CompareConfigs. Oracle: a stack evaluator over trees with path walks (pev.go): a walk evaluates the reference-valued settings it passes, each in a scope of its own; a cyclic setting on the path is a cyclic reference error for getters, Has, Child and Unpack alike. (5) histories on the path world and on a fourth flat graph: all reads, then 1-2 mutations (Merge of another reference/splice/literal, SetString, Remove, other resolvers), all reads again, judged against the configuration as it is now; a deviation that a freshly built configuration of the same content does not show is reported as after-mutation:<sig>. (6) every tenth random case a ladder (7 templates: the same variable twice/three times per level, two-rail diamonds, diamonds through object members, alias chains read through paths, failing chains of paths ending in a cycle or in nothing) climbed in steps of 4 levels up to 40: resolutions per read <= 64 per reference written + 64, memory allocated per read (runtime TotalAlloc delta, no clock) must not grow more than 8-fold for 4 more levels once above 4 MB, dependency lists reported by a future hook kind deps never longer than the number of references."
+	return "(1) exhaustively all reference graphs over 3 string settings with at most 2 references each (13^3 graphs); (2) random graphs over up to 8 settings (strings a..f, object o with members o.x, o.y) with references nested in defaults, alternatives, error operators and reference names, repeated uses, diamonds, self references, references from object members to ancestors and to the object itself, exact single references to the object; with 0 or 1 resolver. Every setting is read through String, Unpack (interface{} and string), Has, CountField, Child (object-valued), and the whole config through Unpack, FlattenedKeys and diff.CompareConfigs. A hook counts reference resolutions per read (budget 2*10^4, the read is aborted by the monitor beyond it); stack overflows kill the worker and are attributed to the journalled case. Outcomes are compared with the stack-based model evaluator by class: no re-entry -> exact value/failure; unabsorbed re-entry -> cyclic reference error; absorbed re-entry (by a default, an alternative or a resolver) -> the model's value. Non-trivial = the graph has at least one edge; distinct = distinct graph. (3) with every random graph a second, independently drawn configuration of nested objects, maps and lists (depth <= 3) whose object-valued positions are literal objects or exact single references - to each other, to enclosing objects, to themselves, to top-level settings that are references again (chains of 1..4+ references ending in an object), rarely to text or to nothing - and whose text members are splices/operators over other texts and over the object-valued positions (tests like ${obj:+yes} that differ inside and outside the evaluation of obj); 40% of them acyclic by construction, 1/3 with a resolver. It is unpacked into TYPED targets: two recursive struct types (members *T, map[string]*T, map[string]T, []*T, []T, *Config, string, interface{}; opposite declaration orders) - every top-level setting on its own, the whole config, literal objects through Child - each time into a fresh target, once more into the target just filled, and into a target pre-filled with empty objects (merge paths); *Config members are unpacked in a second call. Oracle: an evaluator that follows reference chains at object positions with an explicit stack (all references on the way stay under evaluation while the object they lead to is unpacked) and evaluates texts with the shared string model under that stack: some position fails -> the read fails (as cyclic reference error if every failing position is an unabsorbed re-entry); nothing fails -> the target holds exactly the model's values. Same step budget. (4) with every random graph a third configuration (path world): literal objects/lists, aliases = exact single references to objects, lists, primitives, texts, other aliases (one third of the worlds: one chain of up to 5 aliases), themselves, nothing, also written as paths THROUGH aliases (${x.sub}), texts whose references are such paths (${x.k}, ${o.back.back.k}, ${l.1}); read through String, Has, Child (+ generic Unpack and CountField of the result), Unpack into a member tagged with a multi-segment path, into []interface{}, []string, [N]string, []int, [N]uint8 members (a primitive reads as a list of one) and one struct of slices per call, whole-config Unpack, FlattenedKeys, CompareConfigs. Oracle: a stack evaluator over trees with path walks (pev.go): a walk evaluates the reference-valued settings it passes, each in a scope of its own; a cyclic setting on the path is a cyclic reference error for getters, Has, Child and Unpack alike. (5) histories on the path world and on a fourth flat graph: all reads, then 1-2 mutations (Merge of another reference/splice/literal, SetString, Remove, other resolvers), all reads again, judged against the configuration as it is now; a deviation that a freshly built configuration of the same content does not show is reported as after-mutation:<sig>. (6) every tenth random case a ladder (7 templates: the same variable twice/three times per level, two-rail diamonds, diamonds through object members, alias chains read through paths, failing chains of paths ending in a cycle or in nothing) climbed in steps of 4 levels up to 40: resolutions per read <= 64 per reference written + 64, memory allocated per read (runtime TotalAlloc delta, no clock) must not grow more than 8-fold for 4 more levels once above 4 MB, dependency lists reported by the hook kind deps never longer than the number of references. Round 4: (7) a third recursive target type whose members are partly tagged with PATHS (r.p, q.r, q.p.r, x.p, y.q.r, l.0, v.k1, r.s, x.t; r and q have no member of their own), used for a quarter of the typed worlds and for all worlds (a third) into which a back reference below such a path is grafted (a literal object A gets r: ${A or the object holding A} and p: {r: ${A}}); in the path worlds a member tagged with a multi-element path keeps the references its path leads through under evaluation while the setting found is unpacked (a tag with several elements stands for nested members); (8) a third of the path worlds is read with an Env option: empty, or defining names only the environment has (the configuration's aliases and texts use them) and names the configuration has as well, by literals and by references written in the environment (looked up in the environment only; another reference than one of the same name written in the configuration); (9) six more ladder templates: the same variable twice / two-rail diamonds above ONE cycle absorbed by an operator, chains of ${a(i+1).0} ending in a value, a list, nothing, a cycle."
 }
 
 func (check) Assumptions() []string {
@@ -68,6 +68,10 @@ func (check) Assumptions() []string {
 		"step budget 2*10^4 resolutions per read for graphs of <= 8 settings with <= 3 references per string",
 		"typed reads: a read that fails for several reasons (cyclic and other) only has to fail; which failing position is reported is not compared; the Path of *Config members is not compared; configurations whose model evaluation needs more than 1500 steps are skipped (library reads stay below 2 resolutions per model step, far from the budget)",
 		"path worlds: the reference-valued settings a path walk passes are evaluated one after the other and are not under evaluation any more when the setting found is evaluated (String(\"x.c\") = Child(\"x\") then String(\"c\")); while a container reached through references is UNPACKED these references stay under evaluation (so ${x.k} met while y is unpacked via x: ${y} is a re-entry of y). Not judged: reads where a resolver knows a name whose path fails on the way (whether the resolver is asked depends on where), Has on a path with a primitive in the middle, history steps after which the configuration does not store what replacing the setting would store (how Merge combines a reference to an enclosing object with an existing reference is Merge semantics, checked by sameStored through VerifWalk)",
+		"a struct tag with several elements (config:\"r.x\") is judged like the nested members it stands for: the references evaluated for the elements of its path stay under evaluation while the setting found is unpacked (getters with the same path do not keep them: String(\"x.c\") = Child(\"x\") then String(\"c\")). Consequence shared with unpacking through an alias in general (audit item 7): a setting whose leaves all read fine through getters can fail as cyclic when unpacked through the alias - by the stack semantics the reference is still being evaluated while its value is unpacked, which is what makes anc: {b: ${anc}} a cycle at all",
+		"environments: a name of the configuration whose path fails as cyclic there but which the environment knows is not judged (who wins is not pinned down); references written in an environment are looked up in that environment only",
+		"not generated: configurations whose keys contain the path separator of the read (built under another PathSep, audit item 6): the property quantifies over the reference graphs of ONE configuration read under one spelling of its names; two settings spelled alike is a path-spelling question",
+		"a user type's ConfigUnpacker calling Unpack again starts a new read operation (own active set): outside one read operation",
 		"ladders: the allocation bound needs one case at a time per process (the worker runs cases sequentially); purely computational blow-ups that neither resolve nor allocate are left to the stall watchdog (HangIsViolation)",
 		"typed reads never generate a reference whose path leads THROUGH a reference-valued setting (${x.s} with x: ${a}), nor references to whole maps/lists at struct positions",
 	}
